@@ -19,6 +19,10 @@ import collections
 VERIF = os.path.dirname(os.path.dirname(os.path.abspath(__file__)))
 
 META = {
+    'F37': 'SupSelChoiceOptionMapping cannot resolve a source architecture in which the originating node of the mapped source choice '
+           'also derives another mapped option node (a direct derivation edge to an option, or a second choice on the same node '
+           'sharing an option): SupResolveError "could not determine which option node was selected" although the architecture '
+           'took exactly one option (e.g. start s0; edge s0->n2; C0: s0->[n1,n2]; architecture C0=n1)',
     'F36': 'nested run_timeout: when the outer time limit interrupts the outer worker while it is inside an inner run_timeout '
            '(between leaving the inner pool and joining the inner worker), the inner worker is neither interrupted nor joined: after '
            'the outer call has returned it is still executing the inner function (schedule recorded in the replay file)',
@@ -71,11 +75,15 @@ def classify(prop, v):
     spec = case.get('spec') if isinstance(case, dict) else None
     if prop == 'C16' and v.get('kind') == 'existing-linked-node-without-value':
         return 'F34'
+    if prop == 'C20' and v.get('kind') == 'resolve-raised' and 'could not determine which option node' in exc_of(v):
+        return 'F37'
     if prop == 'C19' and v.get('kind') == 'worker-still-running-the-function-after-return' and case.get('shape') == 'nested':
         return 'F36'
     enc = case.get('enc') if isinstance(case, dict) else None
     if spec is None:
         return None
+    if prop in ('C02', 'C08', 'C18', 'C19', 'C20'):
+        return None   # graph-level / other checks: the processor-level root causes below do not apply
     if enc in ('COMPLETE', None) and 'index 0 is out of bounds for axis 0 with size 0' in exc_of(v):
         return 'F14'
     if enc in ('COMPLETE', None) and not spec.get('cc') and shared_option(spec):
